@@ -76,6 +76,9 @@ def world_truth_outputs(world, plan, prog, now):
         fin = job.final_at(now)
         if fin == 'succeeded':
             s.add('succeeded')
+        elif fin == 'subvanish':
+            if last:
+                s.add('submit-failed')
         elif fin in ('failed', 'vanish', 'killed') and last:
             s.add('failed')
     return out
